@@ -21,6 +21,7 @@ OBLIGATIONS = [
     "KafVerif.C03.read_only_caches",
     "KafVerif.C03.read_run_gapped",
     "KafVerif.C03.read_run_after_loss",
+    "KafVerif.C03.read_run_after_loss_run",
     "KafVerif.C03.handouts_stable",
     "KafVerif.C03.shared_buffer_unstable",
 ]
@@ -994,9 +995,9 @@ def run(ck):
     ck.partial = ("read_run_reachable covers every reachable log whose accepted record sets declare their batch length (all real clients) with "
                   "offsets inside int64 and segments < 2 GiB; for record sets with a zero length field (accepted for the repo's fixtures) only "
                   "the buffer/flush-window theorems apply - the segment path is then covered by the correspondence run and the monitor only; "
-                  "object loss: read_run_after_loss covers ONE loss+restart after any fault-free history (read_run_gapped any log satisfying the "
-                  "gapped invariant); that the gapped invariant is preserved by appends/flushes after such a restart and by repeated loss+restart "
-                  "rounds is exercised by the holes stream (correspondence + monitor), not proved")
+                  "object loss: read_run_after_loss(_run) cover ONE loss+restart after any fault-free history and every later state up to the next "
+                  "restart (read_run_gapped: any log satisfying the gapped invariant); a SECOND loss+restart round (orphans left in S3 by the first) "
+                  "is exercised by the holes stream (correspondence + monitor), not proved")
     bins = ck.build_all()
     if bins is None:
         return
@@ -1017,7 +1018,7 @@ def run(ck):
     ok = run_streams(ck, bins, "C03", DRIVER, [
         ("histories", "st", storage_ops(ck, ncases, nops)),
         ("xpartition", "st", xpart_ops(ck, 8 if ck.quick() else 80)),
-        ("holes", "st", holes_ops(ck, 7 if ck.quick() else 100)),
+        ("holes", "st", holes_ops(ck, 7 if ck.quick() else 60)),
         ("broker", "br", broker_ops(ck, 6 if ck.quick() else 60, 60)),
         # prefetch goroutines on (cache contents and therefore the path are scheduling dependent): monitor only
         ("prefetch", "st", prefetch_ops(ck, 6 if ck.quick() else 60, 60), False),
